@@ -114,10 +114,11 @@ InFormulaDomain(a, b, in) ==
     \* the fourth powers of get_Cs leave the fixed-point range of the reference, so those inputs are not judged
     [] a = "okhsl" /\ b = "oklab" -> FxLe(FxEps(12), in[3]) /\ FxLe(in[3], FxSub(FxOne, FxEps(12)))
     \* ... and the published inverse has a pole in the saturation beyond the gamut surface (t = (C - k0) / (k1 + k2 (C - k0))
-    \* with k2 < 0), so Oklab -> Okhsl is judged for colours of the sRGB gamut (linear components within 2^-10 of [0, 1])
+    \* with k2 < 0), so Oklab -> Okhsl is judged for colours of the sRGB gamut: linear components not below -2^-7 of the
+    \* largest one (the gamut of a dark colour is small) and not above 1 + 2^-10
     [] a = "oklab" /\ b = "okhsl" -> /\ FxLe(FxEps(12), in[1]) /\ FxLe(in[1], FxSub(FxOne, FxEps(12)))
                                       /\ LET rgb == OkToLin(in[1], in[2], in[3])
-                                         IN \A i \in 1..3 : FxLe(FxNeg(FxEps(10)), rgb[i]) /\ FxLe(rgb[i], FxAdd(FxOne, FxEps(10)))
+                                         IN \A i \in 1..3 : FxLe(FxNeg(FxShr(Max3(rgb), 7)), rgb[i]) /\ FxLe(rgb[i], FxAdd(FxOne, FxEps(10)))
     \* HSLuv: the reference sets chroma / saturation to 0 below L = 1e-8 and above 99.9999999 (palette has the first guard
     \* only, see C15); judged for lightness in [2^-20, 100 - 2^-10]
     [] a = "lchuv" /\ b = "hsluv" -> FxLe(FxEps(20), in[1]) /\ FxLe(in[1], FxSub(FxInt(100), FxEps(10)))
